@@ -196,3 +196,38 @@ fn c12_hist_vec_items_9b() {
     assert!(v.len() == 1 && v.iter().next().unwrap().as_slice()[0] == a, "C12: pop removed something else than the last item");
     assert!(FlexVec::<FlatVec<u8, u8>, u8>::validate(v.as_bytes()).is_ok(), "C12: the bytes do not validate after pop");
 }
+
+/// offset-type boundary (C12 / C13): an item whose extent is exactly L::MAX (= the "last item" marker) cannot be sealed.
+/// FlexVec<[u8; N], u8> (item alignment 1, so the extent is 1 slot byte + N): after one item, another push either succeeds
+/// and the vector has two items, or it is refused and the vector is unchanged.
+macro_rules! lmax_boundary {
+    ($name:ident, $n:expr) => {
+        #[kani::proof]
+        #[kani::unwind(258)]
+        fn $name() {
+            // BOUNDED: one history per instantiation (boundary value of the offset type); item contents symbolic
+            let mut buf = [0u8; 2 * ($n + 1) + 3];
+            let x: u8 = kani::any();
+            let y: u8 = kani::any();
+            let v = FlexVec::<[u8; $n], u8>::default_in_place(&mut buf).unwrap();
+            assert!(v.push([x; $n]).is_ok(), "C12: a push that fits was refused");
+            assert!(v.len() == 1, "C12: len() differs from the abstract sequence");
+            let r = v.push([y; $n]).map(|_| ());
+            let mut it = v.iter();
+            let first = it.next().unwrap();
+            assert!(first[0] == x && first[$n - 1] == x, "C12,C13: the first item changed");
+            match r {
+                Ok(()) => {
+                    let second = it.next();
+                    assert!(second.is_some(), "C12: push returned Ok but the new item is not part of the sequence");
+                    let s = second.unwrap();
+                    assert!(s[0] == y && s[$n - 1] == y, "C12: the pushed item differs from what was pushed");
+                    assert!(it.next().is_none(), "C12: iter() yields more items than the abstract sequence");
+                }
+                Err(_) => { assert!(it.next().is_none(), "C13: a refused push changed the item count"); }
+            }
+        }
+    };
+}
+lmax_boundary!(c12_lmax_boundary_u8_254, 254);
+lmax_boundary!(c12_lmax_boundary_u8_253, 253);
